@@ -115,6 +115,7 @@ def run(ctx):
                 'of m in 1..3 in-memory migrations, every s in 0..m, start states {fresh database, database at each '
                 'earlier evolution, database already on migrations}, alone and next to an evolution-only app; '
                 'non-trivial = every case (exhaustive over these parameters in both tiers)')
+    relabelled_app_probe(ctx)
     combos = [(k, m, s, o) for k in (0, 1, 2) for m in (1, 2, 3) for s in range(0, m + 1) for o in (False, True)]
     ctx.rng.shuffle(combos)
     if quick:
@@ -271,6 +272,30 @@ def run(ctx):
             if not res2['ok'] or res2['required'] or w2:
                 ctx.fail(None, 'a further run is not a no-op: ok=%s required=%s writes=%d'
                          % (res2['ok'], res2['required'], len(w2)), rep)
+
+
+def relabelled_app_probe(ctx):
+    """an app whose label (AppConfig.label) differs from its module name: the stored signature lists exactly the
+    migrations that django_migrations records for the app LABEL.  The rig's apps cannot change their label inside one
+    process, so the step of the hand-over that decides this - handing the recorded migrations to the app's signature -
+    is exercised directly, for labels equal to and different from the legacy (module) name."""
+    from django_evolution.signature import AppSignature
+    from django_evolution.utils.migrations import MigrationList
+    rows = [('handover', '0001_initial'), ('handover', '0002_more'), ('c10app', '0001_initial'), ('other', '0001_initial'),
+            ('other', '0002_x')]
+    for app_id, legacy in (('c10app', 'c10app'), ('handover', 'c10app'), ('other', None), ('handover', 'other')):
+        ml = MigrationList()
+        for label, name in rows:
+            ml.add_migration_info(app_label=label, name=name)
+        a = AppSignature(app_id=app_id, legacy_app_label=legacy)
+        a.applied_migrations = ml
+        got = sorted(a.applied_migrations or [])
+        want = sorted(name for label, name in rows if label == app_id)
+        ctx.count('relabelled_app_probe')
+        ctx.case({'app_id': app_id, 'legacy_app_label': legacy, 'recorded': rows}, nontrivial=True, sample_cap=2)
+        if got != want:
+            ctx.fail(None, 'the signature of app %r (legacy label %r) lists %s, django_migrations records %s for it'
+                     % (app_id, legacy, got, want), {'app_id': app_id, 'legacy_app_label': legacy, 'recorded': rows})
 
 
 def replay(ctx, obj):
